@@ -147,23 +147,32 @@ func (r *vTCPRec) AddClosed(status string, data metrics.ProxyMetrics, duration t
 }
 func (r *vTCPRec) AddProbe(status, drainResult string, clientProxyBytes int64) {}
 
-type vUDPRec struct{}
+type vUDPRec struct {
+	m      *vMetrics
+	client string
+}
 
 func (vUDPRec) AddPacketFromClient(status string, clientProxyBytes, proxyTargetBytes int64) {}
 func (vUDPRec) AddPacketFromTarget(status string, targetProxyBytes, proxyClientBytes int64) {}
-func (vUDPRec) RemoveNatEntry()                                                             {}
+func (r vUDPRec) RemoveNatEntry() {
+	r.m.mu.Lock()
+	r.m.natGone[r.client] = time.Now()
+	r.m.cond.Broadcast()
+	r.m.mu.Unlock()
+}
 
 type vMetrics struct {
 	mu        sync.Mutex
 	cond      *sync.Cond
 	tcp       map[string]*vTCPRec // by client address (remote of the server side)
 	nat       map[string]string   // client address -> key id
+	natGone   map[string]time.Time // client address -> when the association was reported removed
 	udpSearch int
 	udpFound  []bool
 }
 
 func newVMetrics() *vMetrics {
-	m := &vMetrics{tcp: map[string]*vTCPRec{}, nat: map[string]string{}}
+	m := &vMetrics{tcp: map[string]*vTCPRec{}, nat: map[string]string{}, natGone: map[string]time.Time{}}
 	m.cond = sync.NewCond(&m.mu)
 	return m
 }
@@ -184,7 +193,7 @@ func (m *vMetrics) AddUDPNatEntry(clientAddr net.Addr, accessKey string) service
 	m.nat[clientAddr.String()] = accessKey
 	m.cond.Broadcast()
 	m.mu.Unlock()
-	return vUDPRec{}
+	return vUDPRec{m: m, client: clientAddr.String()}
 }
 func (m *vMetrics) AddCipherSearch(proto string, accessKeyFound bool, timeToCipher time.Duration) {
 	if proto == "udp" {
@@ -221,6 +230,8 @@ type vHarness struct {
 	dir     string
 	sinkTCP net.Listener
 	sinkUDP net.PacketConn
+	lastNat vNatProbe // the latest UDP probe (client address, instant it was sent)
+	natLife bool      // mode "natlife": follow every authenticated UDP probe until its association is removed
 }
 
 func (h *vHarness) emit(ev map[string]any) {
@@ -312,6 +323,12 @@ func (h *vHarness) probeTCP(m *vMetrics, addr string, hello []byte) (bool, int, 
 	return true, vIDNum[rec.authed], rec.status, nil
 }
 
+// vNatProbe: an authenticated UDP probe whose association the "natlife" mode follows until it is reported removed
+type vNatProbe struct {
+	client string
+	sent   time.Time
+}
+
 func (h *vHarness) probeUDP(m *vMetrics, addr string, k vKey) (int, error) {
 	key, _ := shadowsocks.NewEncryptionKey(k.cipher, k.secret)
 	c, err := vDialUDP(addr)
@@ -329,11 +346,13 @@ func (h *vHarness) probeUDP(m *vMetrics, addr string, k vKey) (int, error) {
 	m.mu.Lock()
 	before := m.udpSearch
 	m.mu.Unlock()
+	sent := time.Now()
 	c.Write(pkt)
 	ok := m.waitFor(3*time.Second, func() bool { return m.udpSearch > before })
 	if !ok {
 		return 0, fmt.Errorf("datagram to %s was not processed within 3s", addr)
 	}
+	h.lastNat = vNatProbe{client: me, sent: sent}
 	m.mu.Lock()
 	found := m.udpFound[before]
 	m.mu.Unlock()
@@ -378,6 +397,7 @@ func (h *vHarness) probe(m *vMetrics, tag string) {
 	listening := [][]interface{}{}
 	unhandled := [][]interface{}{}
 	problems := []string{}
+	var nats []vNatFollow
 	for a := 1; a <= len(h.u.ports); a++ {
 		addr := h.u.dialAddr(a)
 		// TCP
@@ -421,8 +441,27 @@ func (h *vHarness) probe(m *vMetrics, tag string) {
 				}
 				if id != 0 {
 					serving = append(serving, []interface{}{"udp", a, cs, id})
+					nats = append(nats, vNatFollow{a: a, cs: cs, p: h.lastNat})
 				}
 			}
+		}
+	}
+	// C14 through the server's wiring: every association lives at least the configured timeout after the client's only
+	// datagram and is reported removed within bounded time after that (whatever the format of the configuration)
+	natlife := [][]interface{}{}
+	if h.natLife {
+		for _, n := range nats {
+			var gone time.Time
+			ok := m.waitFor(time.Until(n.p.sent.Add(vNatTimeout+vNatSlack+500*time.Millisecond)), func() bool {
+				g, ok := m.natGone[n.p.client]
+				gone = g
+				return ok
+			})
+			ms := 999999
+			if ok {
+				ms = int(gone.Sub(n.p.sent) / time.Millisecond)
+			}
+			natlife = append(natlife, []interface{}{n.a, n.cs, ms})
 		}
 	}
 	// let the goroutine of a stopped generation leave runConfig
@@ -431,8 +470,18 @@ func (h *vHarness) probe(m *vMetrics, tag string) {
 		time.Sleep(2 * time.Millisecond)
 		runners = vRunners()
 	}
-	h.emit(map[string]any{"ev": "Probe", "tag": tag, "serving": serving, "listening": listening, "runners": runners, "problems": problems, "unhandled": unhandled})
+	h.emit(map[string]any{"ev": "Probe", "tag": tag, "serving": serving, "listening": listening, "runners": runners, "problems": problems, "unhandled": unhandled,
+		"natlife": natlife, "natms": int(vNatTimeout / time.Millisecond), "natslack": int(vNatSlack / time.Millisecond)})
 }
+
+type vNatFollow struct {
+	a, cs int
+	p     vNatProbe
+}
+
+// the -udptimeout the server is started with, and how long after it an association may still be reported
+const vNatTimeout = 150 * time.Millisecond
+const vNatSlack = 3 * time.Second
 
 // vCfgJSON: the configuration as the trace specification reads it (no JSON null for empty sequences)
 func vCfgJSON(c vCfg) map[string]any {
@@ -497,7 +546,7 @@ func (h *vHarness) newServer(m *vMetrics, replay int) *OutlineServer {
 	empty := vCfg{Kind: "ok"}
 	f := filepath.Join(h.dir, "cfg-empty.yml")
 	os.WriteFile(f, []byte("services: []\n"), 0o600)
-	server, err := RunOutlineServer(f, 150*time.Millisecond, newPrometheusServerMetrics(), m, replay)
+	server, err := RunOutlineServer(f, vNatTimeout, newPrometheusServerMetrics(), m, replay)
 	h.emit(map[string]any{"ev": "Load", "cfg": vCfgJSON(empty), "frn": vFrn(nil), "ok": err == nil, "err": fmt.Sprint(err)})
 	if err != nil {
 		return nil
@@ -512,6 +561,7 @@ func (h *vHarness) runScenario(sc vScenario) {
 	if server == nil {
 		return
 	}
+	h.natLife = sc.Mode == "natlife"
 	for i, st := range sc.Steps {
 		switch st.A {
 		case "Load":
